@@ -358,6 +358,7 @@ class FundamentalShock(Harness):
                         out.append({"where": where, "k": k, "w": w, "target": target, "enabled": True,
                                     "chunk": 2 if (k + w) % 2 else 100})
             out.append({"where": where, "k": 0, "w": 2, "target": "M1", "enabled": False})
+            out.append({"where": where, "k": 1, "w": 0, "target": "M1", "enabled": True, "chunk": 100})   # empty window
             # a second shock (its own rate) whose window overlaps: on a market stepped earlier, later, or the same one
             for t2 in ("M0", "M2", "M1"):
                 out.append({"where": where, "k": 0, "w": 2, "target": "M1", "enabled": True, "chunk": 100,
